@@ -54,7 +54,18 @@ Section Assoc.
   Qed.
 End Assoc.
 
+Lemma valid_digest_nil : valid_digest [] = false.
+Proof. reflexivity. Qed.
+
 Opaque valid_digest valid_tag valid_repository repo_parse.
+
+Lemma up_dig_ok (c : bool) d :
+  valid_digest (nstr (opt_if c d)) && negb (str_eqb (nstr (opt_if c d)) d) = false.
+Proof.
+  destruct c; cbn [opt_if nstr].
+  - now rewrite str_eqb_refl, andb_false_r.
+  - now rewrite valid_digest_nil.
+Qed.
 
 (* ---------- honest responses pass the client's checks ---------- *)
 
@@ -310,7 +321,8 @@ Section Refine.
       + subst d. apply Hvalid.
       + destruct (valid_digest rf) eqn:V; auto. left. symmetry. auto.
     - destruct Hd as [X|Hd]; [discriminate|].
-      destruct (man_resolve_hit g (n + 1) rs rf d mt c Hi ER L Hd) as [t E]. rewrite E. eauto.
+      destruct (man_resolve_hit g (n + 1) rs rf d mt c Hi ER L Hd) as [t E]. rewrite E.
+      cbn [d_dg]. rewrite vd_opt by (subst d; apply Hvalid). eauto.
   Qed.
 
   Lemma man_fetchref_miss g n rs rf :
@@ -361,7 +373,8 @@ Section Refine.
     rewrite hx_get_blob, L, blob_resp_none. simp. rewrite orb_false_r.
     destruct (p_clen p); cbn [opt_if].
     - rewrite gen_blob_honest by exact V. eauto.
-    - destruct (blob_resolve_hit g (n + 1) rs rf c ER V L) as [t E]. rewrite E. eauto.
+    - destruct (blob_resolve_hit g (n + 1) rs rf c ER V L) as [t E]. rewrite E.
+      cbn [d_dg]. rewrite vd_opt by exact V. eauto.
   Qed.
 
   Lemma blob_fetchref_miss g n rs rf :
@@ -452,7 +465,7 @@ Section Refine.
     intros M Hs Hh V. unfold complete_push, sess_resp. proj.
     rewrite Hs, N.eqb_refl. cbn [negb]. rewrite andb_false_r.
     unfold cexch, handle. proj. rewrite str_eqb_refl. proj. rewrite M. proj.
-    rewrite V, Hh, str_eqb_refl, <- Hs, N.eqb_refl. cbn [andb]. simp.
+    rewrite V, Hh, str_eqb_refl, <- Hs, N.eqb_refl. cbn [andb]. simp. rewrite up_dig_ok.
     eexists _, _. split; reflexivity.
   Qed.
 
